@@ -894,11 +894,23 @@ def get_type_hint(expr, context: ctx.Context, namespace: Tuple[str],
         else:
             return decl.get_type()
 
+    def _ret_of_ref_call(t):
+        # The expression calls a value of a function type (a variable, a
+        # parameter or a field holding a lambda or a function reference):
+        # its type is the return type of that function type.
+        while t is not None and (t.is_wildcard() or t.is_type_var()):
+            t = t.bound
+        if t is not None and t.is_parameterized() and t.is_function_type():
+            return t.type_args[-1]
+        return t
+
     def _return_type_hint(t):
         if not names:
             return t
-        for name, type_args in reversed(names):
+        for name, type_args, is_ref_call in reversed(names):
             t = _comp_type(t, name, type_args)
+            if is_ref_call:
+                t = _ret_of_ref_call(t)
             if t is None:
                 return None
         return t
@@ -959,18 +971,20 @@ def get_type_hint(expr, context: ctx.Context, namespace: Tuple[str],
         if isinstance(expr, ast.FunctionCall):
             if expr.receiver is None:
                 funcdecl = ctx.get_decl(context, namespace, expr.func)
-                return _return_type_hint(
-                    None if funcdecl is None else funcdecl[1].get_type())
+                func_t = None if funcdecl is None else funcdecl[1].get_type()
+                if expr.is_ref_call:
+                    func_t = _ret_of_ref_call(func_t)
+                return _return_type_hint(func_t)
             # Beyond function's name, we also pass the type arguments of
             # the function
-            names.append((expr.func, expr.type_args or []))
+            names.append((expr.func, expr.type_args or [], expr.is_ref_call))
             expr = expr.receiver
 
         elif isinstance(expr, ast.FunctionReference):
             return expr.signature
 
         elif isinstance(expr, ast.FieldAccess):
-            names.append((expr.field, []))
+            names.append((expr.field, [], False))
             expr = expr.expr
 
         else:
